@@ -408,3 +408,35 @@ func maskRange(x string) (int64, int64, bool) {
 	}
 	return 0, k, true
 }
+
+// ForgetExcept is Forget that keeps facts whose only mention of the prefix is
+// inside terms known to read immutable memory.
+func (s *RelState) ForgetExcept(prefix string, immut map[string]bool) {
+	keep := func(k string) bool {
+		if !strings.Contains(k, prefix) {
+			return true
+		}
+		rest := k
+		for t := range immut {
+			if strings.Contains(t, prefix) {
+				rest = strings.ReplaceAll(rest, t, "")
+			}
+		}
+		return !strings.Contains(rest, prefix)
+	}
+	for k := range s.pairs {
+		if !keep(k) {
+			delete(s.pairs, k)
+		}
+	}
+	for k := range s.bools {
+		if !keep(k) {
+			delete(s.bools, k)
+		}
+	}
+	for k := range s.ints {
+		if !keep(k) {
+			delete(s.ints, k)
+		}
+	}
+}
